@@ -54,6 +54,31 @@ Fixpoint word_denote (w : list gate) : dm :=
   | g :: r => dm_matmul_raw (word_denote r) (gate_mat g)
   end.
 
+(* the same product computed without general ring multiplications (right multiplication by a
+   generator only permutes/negates coefficients or adds columns); proved equal to word_denote *)
+Definition zo_muli (x : zo) : zo := ZO (oc x) (od x) (- oa x) (- ob x).      (* x * i *)
+Definition zo_mulw (x : zo) : zo := ZO (ob x) (oc x) (od x) (- oa x).        (* x * omega *)
+Definition zo_mulw7 (x : zo) : zo := ZO (- od x) (oa x) (ob x) (oc x).       (* x * omega^7 *)
+Definition dm_mul_gate (m : dm) (g : gate) : dm :=
+  let '(DM a b c d k) := m in
+  match g with
+  | GH => DM (zo_add a b) (zo_sub a b) (zo_add c d) (zo_sub c d) (k + 1)
+  | GS => DM a (zo_muli b) c (zo_muli d) (k + 0)
+  | GT => DM a (zo_mulw b) c (zo_mulw d) (k + 0)
+  | GX => DM b a d c (k + 0)
+  | GY => DM (zo_muli b) (zo_neg (zo_muli a)) (zo_muli d) (zo_neg (zo_muli c)) (k + 0)
+  | GZ => DM a (zo_neg b) c (zo_neg d) (k + 0)
+  | GSd => DM a (zo_neg (zo_muli b)) c (zo_neg (zo_muli d)) (k + 0)
+  | GTd => DM a (zo_mulw7 b) c (zo_mulw7 d) (k + 0)
+  | GI | GPh => DM a b c d (k + 0)
+  | _ => dm_matmul_raw m (gate_mat g)
+  end.
+Fixpoint word_denote_fast (w : list gate) : dm :=
+  match w with
+  | [] => ct_id
+  | g :: r => dm_mul_gate (word_denote_fast r) g
+  end.
+
 Definition in_set (g : gate) : bool := match g with GOther => false | _ => true end.
 Definition gates_in_set (w : list gate) : bool := forallb in_set w.
 
@@ -109,9 +134,12 @@ Definition sq_lo (lo hi : Q) : Q :=
   if Qle_bool 0 lo then lo * lo else if Qle_bool hi 0 then hi * hi else 0.
 Definition encl_ok (enc : list (Q * Q)) : bool := forallb (fun e => Qle_bool (fst e) (snd e)) enc.
 Definition threshold (k : Z) (eps2 : Q) : Q := (4 * qz (2 ^ k)) * ((2 - eps2) * (2 - eps2)).
-Definition dist_ok (m : dm) (enc : list (Q * Q)) (eps2 : Q) : bool :=
+(* the enclosures are given for the target numbers multiplied by a positive integer scale S
+   (fixed point: integer end points), so that all arithmetic stays on small integers *)
+Definition dist_ok (m : dm) (S : Z) (enc : list (Q * Q)) (eps2 : Q) : bool :=
+  (0 <? S)%Z &&
   if Qle_bool 0 (2 - eps2) then
-    Qle_bool (threshold (mk m) eps2)
+    Qle_bool (threshold (mk m) eps2 * (qz S * qz S))
              (sq_lo (lin_lo (coefX m) enc) (lin_hi (coefX m) enc) + sq_lo (lin_lo (coefY m) enc) (lin_hi (coefY m) enc))
   else true.
 Close Scope Q_scope.
@@ -148,9 +176,11 @@ Definition parse (l : list Z) : list gate := flat_map parse_chunk l.
 
 (* ------------------------------------------------------------------ correspondence *)
 (* a case: the word returned by the implementation, enclosures of the 16 target numbers, eps^2
-   (exact square of the float), eps^2 plus the float-resolution allowance, and (rs only) the exact
+   multiplied by the scale S (integer end points), S, eps^2 (exact square of the float), eps^2 plus
+   the float-resolution allowance, and (rs only) the exact
    DyadicMatrix the implementation handed to _ma_normal_form (16 coefficients and k) *)
-Definition ct_case : Type := (list Z * list (Q * Q) * Q * Q * option (list Z * Z))%type.
+Definition ct_case : Type := (list Z * list (Z * Z) * Z * Q * Q * option (list Z * Z))%type.
+Definition enc_q (l : list (Z * Z)) : list (Q * Q) := map (fun e => (inject_Z (fst e), inject_Z (snd e))) l.
 Definition dm_transpose (m : dm) : dm := DM (ma m) (mc m) (mb m) (md m) (mk m).
 (* exact-stage tie for rs_decomposition: _ma_normal_form lists the factors of the exact matrix
    from left to right and the list is returned as the circuit, so the circuit's matrix is the
@@ -169,11 +199,12 @@ Definition bit (b : bool) (v : Z) : Z := if b then 0 else v.
 (* 0 = everything holds; otherwise the sum of: 1 alphabet, 2 exact unitarity, 4 malformed
    enclosures, 8 distance (with allowance), 16 distance (strict eps), 32 exact stage *)
 Definition ct_code (c : ct_case) : Z :=
-  let '(n, enc, e2, e2a, st) := c in
+  let '(n, encz, sc, e2, e2a, st) := c in
+  let enc := enc_q encz in
   let w := parse n in
-  let m := word_denote w in
+  let m := word_denote_fast w in
   bit (gates_in_set w) 1 + bit (dm_unitaryb m) 2 + bit (encl_ok enc && (List.length enc =? 16)%nat) 4
-  + bit (dist_ok m enc e2a) 8 + bit (dist_ok m enc e2) 16 + bit (stage_ok m st) 32.
+  + bit (dist_ok m sc enc e2a) 8 + bit (dist_ok m sc enc e2) 16 + bit (stage_ok m st) 32.
 Definition ct_check_case (c : ct_case) : bool := ct_code c =? 0.
 (* the same with the strict distance failure ignored: the documented bound up to float64 resolution *)
 Definition ct_check_allow (c : ct_case) : bool := let v := ct_code c in (v =? 0) || (v =? 16).
